@@ -116,6 +116,9 @@ def gen_case(rng, tier="quick"):
                 ctrl.append(c)
     case["controls"] = ctrl
     case["nn_diss"] = rng.random() < 0.4
+    case["entry"] = _pick(rng, ["operators", "operators", "liouvillians"])
+    case["one_tuples"] = rng.random() < 0.2
+    case["entangled_start"] = kind == "generic" and rng.random() < 0.3
     return case
 
 
@@ -307,13 +310,25 @@ def build_chain(case):
     hs, diss, nn, nn_diss = site_terms(case)
     n = case["n"]
     chain = oqupy.SystemChain(list(case["dims"]))
+    entry = case.get("entry", "operators")
+    from oqupy import operators as opr
     for i in range(n):
+        if entry == "liouvillians":
+            # the same generator handed over through the Liouvillian entry
+            # points (built here from the operators, not by SystemChain)
+            chain.add_site_liouvillian(i, _site_liouvillian(hs[i], diss[i]))
+            continue
         chain.add_site_hamiltonian(i, hs[i])
         for op, g in diss[i]:
             chain.add_site_dissipation(i, op, g)
     for i in range(n - 1):
         for a, b in nn[i]:
-            chain.add_nn_hamiltonian(i, a, b)
+            if entry == "liouvillians":
+                chain.add_nn_liouvillian(i, -1j * (
+                    np.kron(opr.left_super(a), opr.left_super(b))
+                    - np.kron(opr.right_super(a), opr.right_super(b))))
+            else:
+                chain.add_nn_hamiltonian(i, a, b)
         for a, b, g in nn_diss[i]:
             chain.add_nn_dissipation(i, a, b, g)
     return chain
@@ -325,7 +340,17 @@ def run_tebd(case, pts, parallel):
     mps = oqupy.AugmentedMPS(initial_states(case))
     pars = oqupy.PtTebdParameters(dt=case["dt"], order=case["order"],
                                   epsrel=case["epsrel"])
+    if case.get("entangled_start"):
+        # a correlated initial chain state with non-trivial lambdas: the
+        # exported state of a short sequential run without environments
+        pre = oqupy.PtTebd(mps, chain, [None] * case["n"], pars)
+        pre.compute(2, progress_type="silent")
+        exported = pre.get_augmented_mps()
+        mps = oqupy.AugmentedMPS([np.array(g) for g in exported.gammas],
+                                 [np.array(x) for x in exported.lambdas])
     sites = list(range(case["n"])) + [tuple(t) for t in case["tuples"]]
+    if case.get("one_tuples"):
+        sites += [(i,) for i in range(case["n"])]
     cfg = {} if parallel is None else {"parallel": parallel}
     tebd = oqupy.PtTebd(mps, chain, pts, pars, dynamics_sites=sites,
                         chain_control=chain_control(case),
@@ -525,6 +550,13 @@ def run_case(case, dec):
                      "%s/tuple%d" % (case["kind"], k),
                      "reduced state of site %d from sites %s differs from "
                      "the single-site record by %.3g" % (site, t, err))
+    if case.get("one_tuples"):
+        for i in range(n):
+            err = _max_diff(seq[str((i,))], seq[str(i)])
+            if err > 1e-12:
+                viol("partial_trace_inconsistent", "%s/tuple1" % case["kind"],
+                     "site %d recorded as (%d,) differs from the record of "
+                     "%d by %.3g" % (i, i, i, err))
     if case["kind"] == "uncoupled":
         ref = single_site_reference(case, pts)
         for k in ref:
